@@ -2,6 +2,8 @@ import Holpy.C18.ModelLA
 import Holpy.C18.ModelArith
 import Holpy.C18.ProofsLA
 import Holpy.C18.ProofsArith
+import Holpy.C18.ProofsSum
+import Holpy.C18.ProofsProd
 /-
 C18 — property theorems about the rules modelled on parsed arithmetic (la_generic / la_tautology,
 comp / minus / unary_minus / div / eq_simplify).  Split from Props.lean to keep build times down.
@@ -80,5 +82,30 @@ example :
     ∧ Arith.eqSimplifyZ false (.lit 2) (.lit 3) .ff = true
     ∧ Arith.eqSimplifyZ false (.atom 0) (.atom 1) .ff = false := by
   refine ⟨by decide +kernel, by decide +kernel, by decide +kernel, by decide +kernel, by decide, by decide⟩
+
+/-- sum_simplify: `split_num_expr` (numerals recognised by `is_number`, valued by `dest_number`, collected into
+one canonical numeral in front of the other summands) preserves the value; prod_simplify: its three cases
+(all factors numerals with the right product; a zero factor; equal numeral products and syntactically equal
+remaining factors).  So an accepted equation `lhs = rhs` holds under every valuation — over the rationals
+(division total, `x / 0 = 0`) and over the integers. -/
+theorem sum_prod_simplify_sound :
+    (∀ (ρ : Nat → ℚ) l r, Arith.sumSimplifyQ l r = true → Arith.evalA ρ l = Arith.evalA ρ r) ∧
+    (∀ (ρ : Nat → ℤ) l r, Arith.sumSimplifyZ l r = true → Arith.evalA ρ l = Arith.evalA ρ r) ∧
+    (∀ (ρ : Nat → ℚ) l r, Arith.prodSimplify l r = true → Arith.evalA ρ l = Arith.evalA ρ r) ∧
+    (∀ (ρ : Nat → ℤ) l r, Arith.prodSimplify l r = true → Arith.evalA ρ l = Arith.evalA ρ r) :=
+  ⟨Arith.sumSimplifyQ_sound, Arith.sumSimplifyZ_sound, Arith.prodSimplifyQ_sound, Arith.prodSimplifyZ_sound⟩
+
+/-- non-vacuity: `(1 + x) + 2 = 3 + x`, `x + 0 = x`, `(2 * x) * 3 = 6 * x`, `x * 0 = 0` accepted;
+`x + y = y + x`, `x + 1 = x`, `(2 * x) * 3 = 5 * x`, `x * y = y * x` (no numeral factor) rejected -/
+example :
+    Arith.sumSimplifyZ (.add (.add (.lit 1) (.atom 0)) (.lit 2)) (.add (.lit 3) (.atom 0)) = true
+    ∧ Arith.sumSimplifyZ (.add (.atom 0) (.lit 0)) (.atom 0) = true
+    ∧ Arith.sumSimplifyZ (.add (.atom 0) (.atom 1)) (.add (.atom 1) (.atom 0)) = false
+    ∧ Arith.sumSimplifyZ (.add (.atom 0) (.lit 1)) (.atom 0) = false
+    ∧ Arith.prodSimplify (α := Int) (.mul (.mul (.lit 2) (.atom 0)) (.lit 3)) (.mul (.lit 6) (.atom 0)) = true
+    ∧ Arith.prodSimplify (α := Int) (.mul (.atom 0) (.lit 0)) (.lit 0) = true
+    ∧ Arith.prodSimplify (α := Int) (.mul (.mul (.lit 2) (.atom 0)) (.lit 3)) (.mul (.lit 5) (.atom 0)) = false
+    ∧ Arith.prodSimplify (α := Int) (.mul (.atom 0) (.atom 1)) (.mul (.atom 1) (.atom 0)) = false := by
+  refine ⟨by decide, by decide, by decide, by decide, by decide, by decide, by decide, by decide⟩
 
 end Holpy.C18
